@@ -21,6 +21,7 @@ CONSTANTS
   Qs <- One0
   Vs <- D_V1
   As <- One1
+  QScales <- QS1
   Gravs <- K_G1
   DisSets <- NoDis
   TenK <- One0
@@ -30,6 +31,7 @@ CONSTANTS
   TenZero <- BothTz
   SpPairs <- D_Sp1
   SpArms <- D_SpArm
+  Sleeps <- NoTz
   StiffPolys <- P00
   DampPolys <- P00
   TenKPolys <- P00
